@@ -92,6 +92,7 @@ pub fn add_counters(rep: &mut Rep, w: &World) {
     rep.add("server_disconnects_ending_in_a_user_property_with_empty_value", c.disconnects_ending_in_empty_value as i64);
     rep.add("requests_over_the_maximum_packet_size", c.oversize_refusals_expected as i64);
     rep.add("packets_arriving_together_with_the_connack_of_a_later_connection", c.packets_arriving_with_connack as i64);
+    rep.add("user_disconnects_with_options_compared", c.disconnects_with_options as i64);
     rep.add("inbound_pubrel_with_reason_0x92", c.pubrel_not_found as i64);
     rep.add("acks_with_property_section_over_110_bytes", c.long_ack_props as i64);
     rep.add("inbound_acks_matched", c.inbound_acks_matched as i64);
